@@ -38,13 +38,15 @@ def source_hash():
     return h.hexdigest()[:16]
 
 
-def _prune(keep):
+def _prune(keep, keep_n=6):
+    """Disk hygiene: keep the build of the current tree and the few most recent other ones (sensitivity runs
+    against scratch copies may be using theirs concurrently)."""
     try:
-        for d in os.listdir(BUILD):
-            p = os.path.join(BUILD, d)
-            if d != keep and os.path.isdir(p) and not d.startswith("fuzz"):
-                # keep at most the current tree's build; others are stale
-                shutil.rmtree(p, ignore_errors=True)
+        dirs = [os.path.join(BUILD, d) for d in os.listdir(BUILD)
+                if os.path.isdir(os.path.join(BUILD, d)) and d != keep]
+        dirs.sort(key=os.path.getmtime, reverse=True)
+        for p in dirs[keep_n:]:
+            shutil.rmtree(p, ignore_errors=True)
     except FileNotFoundError:
         pass
 
